@@ -1357,6 +1357,7 @@ fn termination_families(thorough: bool) -> Vec<(String, Vec<(usize, Spec, (Strin
 
 fn main() {
     vcore::supervise("C19");
+    vcore::install_log_evaluation(); // logging is part of the environment: log arguments are evaluated as under a real subscriber
     let ctx = Ctx::from_args("C19", "fault_enumeration");
     let thorough = !ctx.quick();
 
